@@ -53,6 +53,12 @@
 (* for reads, a line-prefix / the new collection.  With IOEnv.DEVQ = "1"    *)
 (* (open finding C20-qread-nonatomic only) a qread_fail may also leave the  *)
 (* new db with the old rdb (NonAtomicQread behaviour, marker 2).          *)
+(* "insert_fail": insert(e.a, source) whose caller-supplied tag source      *)
+(* hands over the e.k first names of e.seq and then raises (any exception   *)
+(* type may come out): the object is what Debtags!IInsertFails says         *)
+(* (unchanged), or the package entered consistently with a prefix of those  *)
+(* names (IInsertFailsAllowed; with DEV also today's set((pkg)) form,       *)
+(* marker 1).                                                               *)
 (* Batched: <<"ACCEPTED", tid>> for every trace explained completely.      *)
 (***************************************************************************)
 EXTENDS Debtags, IOUtils, TLCExt
@@ -61,7 +67,7 @@ Traces     == JsonDeserialize(IOEnv.TRACE_FILE)
 Diag       == IOEnv.TRACE_DIAG = "1"
 DevAllowed == IOEnv.DEV = "1"
 DevQAllowed == IOEnv.DEVQ = "1"
-FailOps    == {"read_fail", "qread_fail", "probe"}
+FailOps    == {"read_fail", "qread_fail", "probe", "insert_fail"}
 
 Chk(x) == x = TRUE          \* a pure check inside an action (TLC would branch on =>, \/)
 
@@ -79,7 +85,7 @@ RestrictPOps == {"choose", "choose_copy", "filter_p", "filter_p_copy", "filter_p
 
 \* inputs the statement does not cover (DESIGN D3 / 5 C20): any outcome is accepted
 Unspecified(e, pre) ==
-   \/ e.op = "insert" /\ e.a \in DOMAIN pre.db                          \* not a fresh package
+   \/ e.op \in {"insert", "insert_fail"} /\ e.a \in DOMAIN pre.db         \* not a fresh package
    \/ e.op \in {"read", "qread"} /\ \E i, j \in 1..Len(e.lines) : i # j /\ ToSet(e.lines[i].pkgs) \cap ToSet(e.lines[j].pkgs) # {}
    \/ e.op = "choose_copy" /\ ~(ToSet(e.s) \subseteq DOMAIN pre.db)     \* KeyError today
    \/ e.op = "facet" /\ ~IFacetDomain(pre)                              \* tags not of the form facet::name
@@ -177,9 +183,16 @@ FailureOK(e, pre, obs) ==
            /\ e.exc # ""
            /\ \/ obs \in {pre, IReadClosed(JLines(e.lines), {})}
               \/ DevQAllowed /\ obs = IQReadFails(pre, IReadClosed(JLines(e.lines), {}), e.k, TRUE)
+     [] e.op = "insert_fail" ->                 \* the tag source raised after e.k names: error type unspecified
+           /\ e.exc # ""
+           /\ e.k \in 0..Len(e.seq)
+           /\ obs \in IInsertFailsAllowed(pre, e.a, e.seq, e.k, DevAllowed)
+           /\ (InverseOf(pre) /\ obs \in IInsertFailsAllowed(pre, e.a, e.seq, e.k, FALSE)) =>
+                  (InverseOf(obs) /\ AbsOf(obs) \in AInsertFailsAllowed(AbsOf(pre), e.a, e.seq, e.k))
      [] e.op = "probe" ->                       \* error type unspecified; a call that succeeds is unspecified too
            IF InverseOf(pre) THEN InverseOf(obs) ELSE obs = pre
 DevQStep(e, pre, obs) == e.op = "qread_fail" /\ obs \notin {pre, IReadClosed(JLines(e.lines), {})}
+DevIStep(e, pre, obs) == e.op = "insert_fail" /\ ~Unspecified(e, pre) /\ obs \notin IInsertFailsAllowed(pre, e.a, e.seq, e.k, FALSE)
 
 TInit == /\ tid \in 1..Len(Traces)
          /\ l = 1
@@ -239,6 +252,7 @@ TStep == /\ l <= Len(Tr.events)
                /\ ((~Unspecified(e, pre) /\ e.op \notin (FailOps \cup {"q", "qs", "back"}) /\ DevAllowed /\ obs # Nominal(e, pre))
                       => PrintT(<<"AT", tid, l, 1>>))
                /\ (DevQStep(e, pre, obs) => PrintT(<<"AT", tid, l, 2>>))
+               /\ (DevIStep(e, pre, obs) => PrintT(<<"AT", tid, l, 1>>))
          /\ l' = l + 1 /\ UNCHANGED tid
          /\ (Diag => PrintT(<<"AT", tid, l, 0>>))
          /\ (l' = Len(Tr.events) + 1 => PrintT(<<"ACCEPTED", tid>>))
